@@ -142,7 +142,8 @@ static void mpmcRun(const char* name) {
   h.name = name;
   g_live = 0;
   {
-    Ring ring;
+    std::unique_ptr<Ring> ringOwner(new Ring()); // heap: see the store-buffer fault
+    Ring& ring = *ringOwner;
     h.capacity = Ring::capacity();
     int nProd = range(1, 3), nCons = range(1, 3);
     if (nProd + nCons > 4)
@@ -1027,9 +1028,9 @@ static void wlArena() {
 
 } // namespace
 
-HX_WORKLOAD("C33", "vector", wlVector, SF_ALL, 3000000, 3000000, 1);
-HX_WORKLOAD("C33", "vector-boundary", wlVectorBoundary, SF_ALL, 3000000, 3000000, 2);
-HX_WORKLOAD("C34", "mpmc", wlMpmc, SF_ALL, 3000000, 3000000, 1);
+HX_WORKLOAD("C33", "vector", wlVector, SF_ALL | SF_TSO, 3000000, 3000000, 1);
+HX_WORKLOAD("C33", "vector-boundary", wlVectorBoundary, SF_ALL | SF_TSO, 3000000, 3000000, 2);
+HX_WORKLOAD("C34", "mpmc", wlMpmc, SF_ALL | SF_TSO, 3000000, 3000000, 1);
 HX_WORKLOAD("C35", "spsc", wlSpsc, SF_ALL, 3000000, 3000000, 1);
 HX_WORKLOAD("C36", "deque", wlDeque, SF_ALL | SF_TSO, 3000000, 3000000, 1);
-HX_WORKLOAD("C37", "arena", wlArena, SF_ALL, 3000000, 3000000, 1);
+HX_WORKLOAD("C37", "arena", wlArena, SF_ALL | SF_TSO, 3000000, 3000000, 1);
